@@ -1,11 +1,93 @@
-(* Property C15 — search algorithms recover their state from history at every crash point. *)
-From PG Require Import Common.Tactics Model.Recover.
+(* Property C15 — search algorithms recover their state from history at every crash point.
+   Only statements and [exact]; proofs live in Proofs/Recover*.v.
 
-Theorem C15_sweeping_counts_partial : forall h, sw_np (sw_recover (mkSw 0 0 None) h) = length h.
-Proof.
-  intros h. unfold sw_recover.
-  assert (forall s, sw_np (fold_left sw_replay h s) = sw_np s + length h) as H.
-  { induction h; intros; simpl; [lia|]. rewrite IHh. simpl. lia. }
-  rewrite H. reflexivity.
-Qed.
-Print Assumptions C15_sweeping_counts_partial.
+   run_events g rw evs  : the uninterrupted run of generator g over an event schedule
+                          (0 = propose, 1 = feed back the oldest in-flight proposal, 2 = abandon it for ever);
+                          every prefix of a schedule is a schedule, so "for all evs" is "at every crash point".
+   r_hist               : the persisted history at that point — every proposed DNA with the metadata the
+                          generators put on it, and its reward (None while in flight).
+   recovered g h        : a fresh instance after setup, then recover(h).
+   pview (obs g s)      : num_proposals, num_feedbacks, population with fitness and ids, de-duplication
+                          cache, and the same of a wrapped feedback-driven generator. *)
+From PG Require Import Common.Tactics Model.Recover Proofs.RecoverBase Proofs.RecoverEvo Proofs.RecoverDedup Proofs.RecoverMain.
+
+(* Every configuration the syntax can name — Sweeping, seeded Random, Evolution with any initialiser /
+   reproduction table / update selector (None, Last n, Top n, newest generation, recorded table), Deduping over
+   any of these with any hash, auto-reward, max_duplicates, max_proposal_attempts — at every crash point of
+   every schedule with in-flight and abandoned proposals. *)
+Theorem C15_recover_observable : forall (m : Z) (a : alg) (rw : Z -> Z) (evs : list Z),
+  recoverable a = true ->
+  let g := denote m a in
+  let r := run_events g rw evs in
+  r_ok g r = true ->
+  pview (obs g (recovered g (r_hist g r))) = pview (obs g (r_st g r)).
+Proof. exact recover_observable. Qed.
+Print Assumptions C15_recover_observable.
+
+(* The (N, k, w) reading of the property: run length n, the last w rewards missing, crash after k events. *)
+Theorem C15_crash_points : forall (m : Z) (a : alg) (rw : Z -> Z) (n w k : nat),
+  recoverable a = true ->
+  let g := denote m a in
+  let r := run_events g rw (firstn k (lag_events n w)) in
+  r_ok g r = true ->
+  pview (obs g (recovered g (r_hist g r))) = pview (obs g (r_st g r)).
+Proof. exact recover_crash_points. Qed.
+Print Assumptions C15_crash_points.
+
+Theorem C15_recover_counts : forall (m : Z) (a : alg) (rw : Z -> Z) (evs : list Z),
+  recoverable a = true ->
+  let g := denote m a in
+  let r := run_events g rw evs in
+  r_ok g r = true ->
+  match obs g (recovered g (r_hist g r)), obs g (r_st g r) with
+  | Obs np nf _ _ _ _, Obs np' nf' _ _ _ _ => np = np' /\ nf = nf'
+  end.
+Proof. exact recover_counts. Qed.
+Print Assumptions C15_recover_counts.
+
+(* Sweeping, seeded Random and Deduping over them continue, after recovery, with exactly the proposals of
+   the uninterrupted run (any number n of further proposals, including the StopIteration that ends them). *)
+Theorem C15_continuation : forall (m : Z) (a : alg) (rw : Z -> Z) (evs : list Z) (n : nat),
+  continuable a = true ->
+  let g := denote m a in
+  let r := run_events g rw evs in
+  r_ok g r = true ->
+  continue_from g n (recovered g (r_hist g r)) = continue_from g n (r_st g r).
+Proof. exact recover_continuation. Qed.
+Print Assumptions C15_continuation.
+
+(* The Deduping wrapper preserves recoverability of ANY generator it wraps (not only those of the syntax). *)
+Theorem C15_dedup_wrapper : forall (g : gen) (m : Z) (hm auto maxdup maxatt : nat),
+  obs_rec g anyfed HRw -> meta_pres g -> obs_rec (Deduping g m hm auto maxdup maxatt) keyfed HRk.
+Proof. exact dedup_preserves_recoverability. Qed.
+Print Assumptions C15_dedup_wrapper.
+
+(* NSGA2 / NEAT and every other Evolution: ANY population initialiser, ANY reproduction operator and ANY
+   population_update operator over ANY global state recover counters and population, provided the update
+   depends only on a part [vis] of the global state that reproduction does not change (NSGA2: the elites,
+   not the cursor; NEAT: the species list).  Partial: that NSGA2's and NEAT's shipped operators satisfy the
+   two hypotheses is not proved here (they are run, not modelled; the correspondence records NSGA2's update
+   as a table), and the rest of the global state, num_generations and the pending children of a
+   multi-child generation are not claimed. *)
+Theorem C15_evolution_any_operators_partial :
+  forall (gi : gen) (size : option nat) (G : Type) (g0 : G)
+         (repro : list dna -> G -> Z -> nat -> list Z * G) (updf : list dna -> G -> nat -> list dna * G)
+         (V : Type) (vis : G -> V) (rw : Z -> Z) (evs : list Z),
+  (forall pop g1 g2 step, vis g1 = vis g2 ->
+     fst (updf pop g1 step) = fst (updf pop g2 step) /\ vis (snd (updf pop g1 step)) = vis (snd (updf pop g2 step))) ->
+  (forall pop g ngen np, vis (snd (repro pop g ngen np)) = vis g) ->
+  let g := Evolution gi size G g0 repro updf in
+  let r := run_events g rw evs in
+  r_ok g r = true ->
+  pview (obs g (recovered g (r_hist g r))) = pview (obs g (r_st g r)).
+Proof. exact evolution_any_operators. Qed.
+Print Assumptions C15_evolution_any_operators_partial.
+
+(* Not recovered (and not claimed by the property): num_generations while the initial population is still
+   being proposed — 0 in the uninterrupted run, 1 after recover. *)
+Theorem C15_extra_state_refuted :
+  let g := denote 4 ex_phase in
+  let r := run_events g ex_rw [0; 1]%Z in
+  r_ok g r = true /\ obs g (recovered g (r_hist g r)) <> obs g (r_st g r).
+Proof. exact extra_state_not_recovered. Qed.
+Print Assumptions C15_extra_state_refuted.
